@@ -21,6 +21,9 @@ def main():
         d = os.path.join(root, sid)
         meta = json.load(open(os.path.join(d, 'meta.json')))
         prop = meta['property']
+        for a in sys.argv:                       # --check=Cxx: run another property's check against the change
+            if a.startswith('--check='):
+                prop = a.split('=', 1)[1]
         wt = tempfile.mkdtemp(prefix='verif-seeded-')
         os.rmdir(wt)
         subprocess.run(['git', '-C', '/repo', 'worktree', 'add', '-q', '--detach', wt, 'HEAD'], check=True)
